@@ -52,6 +52,10 @@ def wrap_const_(x):
 class NonStatic(AnalysisError):
     """Iteration over a sequence the analysis cannot enumerate."""
 
+STR_ONLY_METHODS = (
+    "upper", "lower", "replace", "strip", "lstrip", "rstrip", "split", "rsplit", "startswith", "endswith", "format", "join", "title",
+    "capitalize", "partition", "rpartition", "find", "index", "isalpha", "isdigit", "casefold", "swapcase", "zfill",
+)
 MAP_MUTATORS = ("pop", "popitem", "setdefault", "update", "clear", "__setitem__", "__delitem__")
 LIST_MUTATORS = ("append", "extend", "insert", "remove", "pop", "clear", "sort", "reverse")
 
@@ -816,10 +820,14 @@ class CallMixin(object):
         if kwargs or not args:
             raise AnalysisError("E5.regex", "regex call with keyword arguments", node, module)
         s_ = args[0]
+        if isinstance(s_, App) and s_.op == "ite":
+            a_ = self.regex_call(st, rx, name, [s_.args[1]] + list(args[1:]), kwargs, node, module)
+            b_ = self.regex_call(st, rx, name, [s_.args[2]] + list(args[1:]), kwargs, node, module)
+            return self.mk_ite(st, s_.args[0], a_, b_)
         if isinstance(s_, Fin):
             s_ = st.folder().restrict(s_)
         if not (isinstance(s_, (Fin, Const)) and all(isinstance(x, str) for x in (s_.table.values() if isinstance(s_, Fin) else [s_.v]))):
-            raise AnalysisError("E5.regex", "regex applied to %r" % (s_,), node, module)
+            raise AnalysisError("E5.regex", "regex applied to %r" % (repr(s_)[:200],), node, module)
         extra = [a.v for a in args[1:] if isinstance(a, Const)]
         if len(extra) != len(args) - 1:
             raise AnalysisError("E5.regex", "regex call with symbolic extra arguments", node, module)
@@ -973,6 +981,17 @@ class CallMixin(object):
             lo.one_shot = True
             lo.iterator = True
             return self.alloc(st, lo)
+        if dotted in ("itertools.chain", "itertools.chain.from_iterable") and not kwargs:
+            srcs = args
+            if dotted.endswith("from_iterable"):
+                srcs = [v_ for _, v_ in self.iter_values(st, args[0], node, module)]
+            out_ = []
+            for src_ in srcs:
+                out_.extend(self.iter_values(st, src_, node, module))
+            lo = ListObj(out_)
+            lo.one_shot = True
+            lo.iterator = True
+            return self.alloc(st, lo)
         if dotted == "collections.defaultdict":
             if len(args) > 1 or kwargs:
                 raise AnalysisError("E5.call", "defaultdict() with initial content", node, module)
@@ -1111,6 +1130,21 @@ class CallMixin(object):
         if isinstance(recv, TupleVal):
             if name == "index" or name == "count":
                 raise AnalysisError("E5.call", "tuple.%s" % name, node, module)
+        if isinstance(recv, Fin) and name in STR_ONLY_METHODS:
+            # a string method on a table some of whose rows are not strings (a number, None): those
+            # rows raise AttributeError
+            fo = st.folder()
+            r0 = fo.restrict(recv)
+            if isinstance(r0, Fin):
+                bad = fo.fold(lambda x: not isinstance(x, str), [r0])
+                d = self.decide(st, bad)
+                if d is True:
+                    self.hazard(st, "AttributeError", node, module, TRUE, "%s() of a value that is not a string" % name)
+                    raise Dead()
+                if d is None:
+                    self.hazard(st, "AttributeError", node, module, bad, "%s() of a value that is not a string for some inputs (%s)" % (name, sorted(set(type(x).__name__ for x in r0.table.values() if not isinstance(x, str)))))
+                    self.assume(st, mk_not(bad))
+                    return self.call_method(st, st.folder().restrict(recv), name, args, kwargs, node, module)
         raise AnalysisError("E5.call", "method %s of %r" % (name, recv), node, module)
 
     def str_method(self, st, recv, name, args, kwargs, node, module):
@@ -1130,6 +1164,39 @@ class CallMixin(object):
                     parts.append(v if strish(v) else self.to_str(st, v, node, module))
                 r = self.cat(st, parts)
                 return r
+            # conditionally present elements that are all tables over few slots: the joined text is
+            # itself a table
+            flat = [x for g, v in items for x in (g, v)]
+            if isinstance(recv, Const) and isinstance(recv.v, str) and items and all(isinstance(x, (Const, Fin)) for x in flat) and fo.can_fold(flat) and not getattr(self, "keep_pieces", False):
+                nslots = set(s_ for x in flat if isinstance(x, Fin) for s_ in x.slots)
+                # an element's text is undefined on the rows where it is absent: any text will do there
+                comp = []
+                for x in flat:
+                    if isinstance(x, Fin):
+                        sl_, rows_ = fo.rows(x.slots)
+                        if rows_ is not None:
+                            ix_ = [sl_.index(s_) for s_ in x.slots]
+                            miss_ = [k_ for k_ in (tuple(r_[i_] for i_ in ix_) for r_ in rows_) if k_ not in x.table]
+                            if miss_:
+                                t_ = dict(x.table)
+                                for k_ in miss_:
+                                    t_[k_] = ""
+                                x = Fin(x.slots, t_)
+                    comp.append(x)
+                flat = comp
+                if len(nslots) <= 3:
+                    def joined(*xs):
+                        out_ = []
+                        for i_ in range(0, len(xs), 2):
+                            if truth_const(xs[i_]):
+                                if not isinstance(xs[i_ + 1], str):
+                                    return ERR
+                                out_.append(xs[i_ + 1])
+                        return recv.v.join(out_)
+
+                    r_ = fo.fold(joined, flat)
+                    if not (isinstance(r_, Fin) and ERR in r_.table.values()) and not (isinstance(r_, Const) and r_.v is ERR):
+                        return r_
             elems = []
             for g, v in items:
                 elems.append(App("item", (g, v if isinstance(v, Term) else Opaque("obj"))))
@@ -1390,6 +1457,20 @@ class CallMixin(object):
                     rows_ = dict((k_, x_[i]) for k_, x_ in r.table.items() if len(x_) > i)
                     out_.append((g_, fo_.simplify(Fin(r.slots, rows_))))
                 return out_
+        if isinstance(v, App) and v.op == "ite":
+            # a sequence selected by a condition: the elements of either alternative, each under the
+            # alternative's condition (element-wise when both have the same number of definite elements)
+            c_ = v.args[0]
+            ia = self.iter_values(st, v.args[1], node, module)
+            ib = self.iter_values(st, v.args[2], node, module)
+            definite = lambda its: all(isinstance(g_, Const) and truth_const(g_.v) for g_, _ in its)
+            if len(ia) == len(ib) and definite(ia) and definite(ib):
+                try:
+                    return [(TRUE, self.mk_ite(st, c_, x_, y_)) for (_, x_), (_, y_) in zip(ia, ib)]
+                except AnalysisError:
+                    pass
+            nc_ = mk_not(c_)
+            return [(mk_and([c_, g_]), x_) for g_, x_ in ia] + [(mk_and([nc_, g_]), x_) for g_, x_ in ib]
         if isinstance(v, App) and v.op == "cat":
             from .interp_expr import piece_lengths
 
